@@ -124,14 +124,14 @@ PROPS = {
         "assumptions": ["goleveldb contract: Write(batch) applies the batch atomically and in order, Get/Has/NewIterator read the applied writes, Close/Open preserve them", "timer flush is modelled as an explicit tick event; the harness waits BatchDelaySeconds+0.35s for it"],
     },
     "C16": {
-        "theorems": ["SV.Props.C16.factory_refuses_batch_larger_than_cache", "SV.Props.C16.real_cachers_satisfy_the_contract", "SV.Props.C16.unit_over_size_lru", "SV.Props.C16.unit_over_lru", "SV.Props.C16.unit_over_fifo", "SV.Props.C16.real_unit_rejected_put_not_served", "SV.Props.C16.behaves_like_map_of_acknowledged_writes", "SV.Props.C16.rejected_put", "SV.Props.C16.remove_both_layers", "SV.Props.C16.get_is_readonly"],
+        "theorems": ["SV.Props.C16.unit_operations_hold_the_lock_throughout", "SV.Props.C16.factory_refuses_batch_larger_than_cache", "SV.Props.C16.real_cachers_satisfy_the_contract", "SV.Props.C16.unit_over_size_lru", "SV.Props.C16.unit_over_lru", "SV.Props.C16.unit_over_fifo", "SV.Props.C16.real_unit_rejected_put_not_served", "SV.Props.C16.behaves_like_map_of_acknowledged_writes", "SV.Props.C16.rejected_put", "SV.Props.C16.remove_both_layers", "SV.Props.C16.get_is_readonly"],
         "modules": ["SV.Props.C16"],
         "runs": [{"component": "unit", "thorough_seeds": 2}],
         "rule": 'random Put/Get/Has/Remove/ClearCache/GetBulk histories on storageUnit.Unit over every cacher the factory builds (LRU, SizeLRU, FIFOSharded) at capacities 1-6, over memorydb behind a fault-injecting wrapper (Put/Get/Remove rejected at random positions) and over real leveldb.DB / SerialDB; after every operation the injected cacher is read back (Keys/Peek) and fed to the model as the eviction outcome; distinct = distinct (operation kind, canonical output) pairs',
         "assumptions": ['the cacher is modelled as ANY cache that only returns what was put and not removed since (its eviction outcome is an input)', 'persister = map with a fault oracle'],
     },
     "C17": {
-        "theorems": ["SV.Props.C17.source_eviction_test_is_the_models", "SV.Props.C17.never_loses_all_entry_points", "SV.Props.C17.live_keys_characterised", "SV.Props.C17.hasOrAdd_is_has_then_put", "SV.Props.C17.hasOrAdd_spills_before_dropping", "SV.Props.C17.never_loses", "SV.Props.C17.spills_before_dropping", "SV.Props.C17.legacy_F11"],
+        "theorems": ["SV.Props.C17.adapter_put_holds_the_lock_throughout", "SV.Props.C17.source_eviction_test_is_the_models", "SV.Props.C17.never_loses_all_entry_points", "SV.Props.C17.live_keys_characterised", "SV.Props.C17.hasOrAdd_is_has_then_put", "SV.Props.C17.hasOrAdd_spills_before_dropping", "SV.Props.C17.never_loses", "SV.Props.C17.spills_before_dropping", "SV.Props.C17.legacy_F11"],
         "modules": ["SV.Props.C17"],
         "runs": [{"component": "adapter", "thorough_seeds": 2}],
         "rule": 'random Put/Get/Has/Peek histories (one third) and histories that also use HasOrAdd/Remove/Clear/Len/Keys (two thirds) on storageCacherAdapter over the real capacityLRU (item capacities 1-4, byte capacities 1..100000, sizes 0..1000, re-puts with other sizes) and memorydb / real LevelDB; each key bound to one immutable value; distinct = distinct (operation kind, canonical output) pairs',
@@ -166,7 +166,7 @@ PROPS = {
         "assumptions": ["that goleveldb applies a synced batch atomically and recovers it from a torn journal is observed on the sampled crash images, not proved", "that the timer fires within BatchDelaySeconds and kernel fsync semantics are outside the model", "Sync:true on every LevelDB write is a regenerated fact"],
     },
     "C14": {
-        "theorems": ["SV.Props.C14.concurrent_adds_all_present_and_ordered", "SV.Props.C14.concurrent_adds_commute", "SV.Props.C14.selection_after_concurrent_adds", "SV.Props.C14.no_lock_cycle", "SV.Props.C14.components_are_single_critical_sections", "SV.Props.C14.concurrent_selection_nonce_runs", "SV.Props.C14.concurrent_selection_budgets", "SV.Props.C14.concurrent_adds_sorted"],
+        "theorems": ["SV.Props.C14.addTx_is_one_critical_section", "SV.Props.C14.concurrent_adds_all_present_and_ordered", "SV.Props.C14.concurrent_adds_commute", "SV.Props.C14.selection_after_concurrent_adds", "SV.Props.C14.no_lock_cycle", "SV.Props.C14.components_are_single_critical_sections", "SV.Props.C14.concurrent_selection_nonce_runs", "SV.Props.C14.concurrent_selection_budgets", "SV.Props.C14.concurrent_adds_sorted"],
         "modules": ["SV.Props.C14"],
         "runs": [{"component": "conc14", "thorough_seeds": 2, "race": True}],
         "rule": "concurrent workloads (4-8 goroutines, GOMAXPROCS 1/2/4/16) on TxCache (add/remove/select/iterate with eviction; adds only), ImmunityCache, LRU, sized LRU, FIFO cache, TimeCache and ConcurrentMap from a binary built with -race; yields injected at the txcache verifPoint hooks and inside host/session callbacks; oracles: no race / panic / deadlock (watchdog), C01/C02 on every concurrent selection, all concurrently added transactions present and ordered, immunized items survive, size bounds, quiescent CountTx/NumBytes; distinct = distinct (operation kind, output) pairs",
